@@ -571,7 +571,7 @@ class LLVM:
         self.gobj = {}
 
     def gptr(self, ex, name):
-        st = ex.__dict__.setdefault('ll_globals', {})
+        st = ex.pstate.setdefault('ll_globals', {})
         p = st.get(name)
         if p is not None:
             return p
